@@ -219,6 +219,9 @@ func vfSetup(t *testing.T) *vfPop {
 	p.must(t, "att", `{"pub":{"id":"s12","topic":"@GG@","content":"two"}}`)
 	p.must(t, "root", `{"sub":{"id":"s13","topic":"me"}}`)
 	p.must(t, "by", `{"sub":{"id":"s14","topic":"me"}}`)
+	// the root user is a member of a p2p topic with U1 and attached to it
+	p.must(t, "root", `{"sub":{"id":"s14r","topic":"@U1@"}}`)
+	p.names["@PR@"] = p.uids["U3"].P2PName(p.uids["U1"])
 	// a second group that stays unloaded: owner U1, member U2 (offline {get}/{set}/{del} paths)
 	g2 := vfCtrlTopic(p.must(t, "in", `{"sub":{"id":"s15","topic":"new"}}`))
 	p.must(t, "peer", `{"sub":{"id":"s16","topic":"`+g2+`"}}`)
